@@ -12,76 +12,73 @@ namespace LndModel.C11
 
 /-! ## 1. nonce_unique -/
 
-/-- The `i`-th AEAD use after `InitializeKeyWithSalt` (counting from 0, encryptions on the sending
-    side, decryptions on the receiving side) runs under key epoch `i / 1000` with nonce
-    `i % 1000`: the key is rotated exactly every `keyRotationInterval` uses, the nonce restarts
-    at 0 and never reaches the interval. -/
+/-- The `i`-th AEAD use after `InitializeKeyWithSalt salt key` (counting from 0; encryptions on the
+    sending side, decryptions on the receiving side) runs under the key obtained by applying the
+    HKDF ratchet `i / 1000` times, with nonce `i % 1000`: the key is rotated exactly every
+    `keyRotationInterval` uses, the nonce restarts at 0 and never reaches the interval. -/
 theorem rotation_schedule (salt key : Term) (i : Nat) :
-    (stateAt (CipherState.init salt key) i).epoch = i / keyRotationInterval ∧
-    (stateAt (CipherState.init salt key) i).nonce = i % keyRotationInterval ∧
-    (stateAt (CipherState.init salt key) i).salt0 = salt ∧
-    (stateAt (CipherState.init salt key) i).key0 = key := by
-  have h := stateAt_epoch_nonce (CipherState.init salt key) (init_wf salt key) i
+    (stateAt (CipherState.init salt key) i).key = (ratchet salt key (i / keyRotationInterval)).2 ∧
+    (stateAt (CipherState.init salt key) i).salt = (ratchet salt key (i / keyRotationInterval)).1 ∧
+    (stateAt (CipherState.init salt key) i).nonce = i % keyRotationInterval := by
+  have h := stateAt_closed (CipherState.init salt key) (init_wf salt key) i
   simp only [CipherState.init, Nat.zero_add] at h
-  exact ⟨h.1, h.2, stateAt_salt0 _ i, stateAt_key0 _ i⟩
+  exact ⟨h.2.1, h.1, h.2.2⟩
 
-/-- message number `j` (from 0) of a connection is sealed with uses `2j` (length prefix) and
-    `2j+1` (payload): the key changes every 500 messages. -/
-theorem message_schedule (c : CipherState) (ms : List Msg) (j : Nat) (m : Msg) (h : ms[j]? = some m) :
-    (stateAt c (2 * j)).seal Term.empty (lenMsg m.len) ∈ sealLog c ms ∧
-    (stateAt c (2 * j + 1)).seal Term.empty m ∈ sealLog c ms :=
-  sealLog_mem ms c j m h
-
-/-- `nonce_unique`: the `(epoch, nonce)` pairs used for encryption while sending any message list
-    are strictly increasing in lexicographic order (in particular no pair repeats), every nonce
-    is below `keyRotationInterval`, and every packet is sealed under the connection's base key. -/
-theorem nonce_unique (c : CipherState) (hc : c.WF) (ms : List Msg) :
-    (sealLog c ms).Pairwise
-      (fun p q => p.epoch < q.epoch ∨ (p.epoch = q.epoch ∧ p.nonce < q.nonce)) ∧
-    ∀ p ∈ sealLog c ms, p.nonce < keyRotationInterval ∧ p.salt0 = c.salt0 ∧ p.key0 = c.key0 := by
-  have hw := fun p hp => mem_sealLog_wf ms c hc p hp
-  refine ⟨?_, fun p hp => ⟨(hw p hp).1, (hw p hp).2.1, (hw p hp).2.2.1⟩⟩
-  have hp := (sealLog_pairwise ms c hc).1
-  have hp2 : (sealLog c ms).Pairwise (fun p q => p ∈ sealLog c ms ∧ q ∈ sealLog c ms ∧ p.pos < q.pos) := by
-    have := List.Pairwise.and_mem.mp hp
-    exact this.imp (fun ⟨a, b, c⟩ => ⟨a, b, c⟩)
-  refine hp2.imp ?_
-  intro p q ⟨h1, h2, h3⟩
-  have n1 := (hw p h1).1
-  have n2 := (hw q h2).1
-  simp only [Packet.pos, keyRotationInterval] at *
-  omega
-
-/-- the AEAD key a packet was sealed with, as a term -/
-def Packet.keyT (p : Packet) : Term := (ratchet p.salt0 p.key0 p.epoch).2
+/-- `nonce_unique` (schedule form): entry `k` of the log of packets sealed while sending any
+    message list from any well-formed state `c` is sealed under the key of ratchet step
+    `(c.nonce + k) / 1000` with nonce `(c.nonce + k) % 1000`; entries `2i`, `2i+1` are the length
+    prefix and the payload of message `i`.  Hence (step, nonce) increases strictly and
+    lexicographically along the log, and the key changes every 1000 uses = 500 messages. -/
+theorem nonce_unique (c : CipherState) (hc : c.WF) (ms : List Msg) (i : Nat) (m : Msg)
+    (h : ms[i]? = some m) :
+    (sealLog c ms)[2 * i]? = some ((stateAt c (2 * i)).seal Term.empty (lenMsg m.len)) ∧
+    (sealLog c ms)[2 * i + 1]? = some ((stateAt c (2 * i + 1)).seal Term.empty m) ∧
+    (∀ k, (stateAt c k).key = (ratchet c.salt c.key ((c.nonce + k) / keyRotationInterval)).2 ∧
+          (stateAt c k).nonce = (c.nonce + k) % keyRotationInterval) := by
+  obtain ⟨h1, h2⟩ := sealLog_getElem ms c i
+  rw [h] at h1 h2
+  exact ⟨h1, h2, fun k => ⟨(stateAt_closed c hc k).2.1, (stateAt_closed c hc k).2.2⟩⟩
 
 /-- no `(key, nonce)` pair is used twice in one direction: two different positions of the log
-    never carry the same key term and nonce. -/
+    never carry the same key TERM and nonce (uses: the keys of different ratchet steps are
+    different terms). -/
 theorem no_key_nonce_reuse (c : CipherState) (hc : c.WF) (ms : List Msg) :
-    (sealLog c ms).Pairwise (fun p q => ¬ (p.keyT = q.keyT ∧ p.nonce = q.nonce)) := by
-  obtain ⟨h1, h2⟩ := nonce_unique c hc ms
-  have h1' := List.Pairwise.and_mem.mp h1
-  refine h1'.imp ?_
-  intro p q ⟨hp, hq, hlt⟩ ⟨hk, hn⟩
-  have ep : p.epoch = q.epoch := by
-    have a := (h2 p hp).2
-    have b := (h2 q hq).2
-    simp only [Packet.keyT, a.1, a.2, b.1, b.2] at hk
-    exact ratchet_key_inj _ _ _ _ hk
-  omega
+    (sealLog c ms).Pairwise (fun p q => ¬ (p.key = q.key ∧ p.nonce = q.nonce)) :=
+  sealLog_pairwise ms c hc
+
+/-- `nonce_unique` over ARBITRARY operation traces: whatever sequence of `WriteMessage` (accepted
+    or refused: too long / previous record not flushed) and `Flush` (any budget, eager or not,
+    complete or not, also none at all for the last record) is applied to a fresh sending side,
+    the ghost log of all `Encrypt` calls equals the spec log of the accepted messages, no two of
+    its entries share (key, nonce), the cipher state has advanced by exactly two uses per accepted
+    message (a refused write does not consume a nonce), and the bytes handed to the writer plus
+    the bytes still buffered are exactly the encoding of the accepted messages. -/
+theorem trace_nonce_unique (c : CipherState) (hc : c.WF) (ops : List Op) :
+    let t := runOps (Trace.start c) ops
+    t.log = sealLog c t.accepted ∧
+    t.log.Pairwise (fun p q => ¬ (p.key = q.key ∧ p.nonce = q.nonce)) ∧
+    t.s.cs = stateAt c (2 * t.accepted.length) ∧
+    t.wire ++ (t.s.hdr ++ t.s.body) = encodeAll c t.accepted := by
+  obtain ⟨h1, h2, h3, _⟩ := traceInv_run c ops _ (traceInv_start c)
+  exact ⟨h1, by rw [h1]; exact sealLog_pairwise _ c hc, h2, h3⟩
 
 /-- the two directions of a connection (`split`: same salt `ck`, keys `kdf1 ck ∅` / `kdf2 ck ∅`)
-    never use the same key, at any pair of epochs. -/
+    never use the same key, at any pair of ratchet steps. -/
 theorem directions_use_distinct_keys (ck : Term) (ms ms' : List Msg) (p q : Packet)
     (hp : p ∈ sealLog (CipherState.init ck (.kdf1 ck Term.empty)) ms)
     (hq : q ∈ sealLog (CipherState.init ck (.kdf2 ck Term.empty)) ms') :
-    p.keyT ≠ q.keyT := by
-  have a := mem_sealLog_wf ms _ (init_wf _ _) p hp
-  have b := mem_sealLog_wf ms' _ (init_wf _ _) q hq
-  simp only [Packet.keyT, a.2.1, a.2.2.1, b.2.1, b.2.2.1, CipherState.init]
+    p.key ≠ q.key := by
+  obtain ⟨_, ⟨k1, a, _⟩, _⟩ := mem_sealLog_wf ms _ (init_wf _ _) p hp
+  obtain ⟨_, ⟨k2, b, _⟩, _⟩ := mem_sealLog_wf ms' _ (init_wf _ _) q hq
+  rw [a, b, (stateAt_closed _ (init_wf _ _) k1).2.1, (stateAt_closed _ (init_wf _ _) k2).2.1]
+  simp only [CipherState.init]
   exact ratchet_directions_distinct ck _ _ (by simp) (by simp [Term.size]) _ _
 
 example : (sealLog (CipherState.init (.atom 7) (.atom 8)) [⟨3, 5⟩, ⟨0, 0⟩]).length = 4 := rfl
+
+example : (runOps (Trace.start (CipherState.init (.atom 7) (.atom 8)))
+    [.write ⟨3, 5⟩, .flush (some 4) true, .write ⟨1, 1⟩, .flush none false, .write ⟨70000, 0⟩,
+     .write ⟨0, 0⟩]).accepted = [⟨3, 5⟩, ⟨0, 0⟩] := by decide
 
 /-! ## 2. flush_accounting -/
 
@@ -121,15 +118,6 @@ theorem flush_accounting (s s1 : Sender) (m : Msg) (hw : writeMessage s m = .ok 
   rw [hh, hbd] at h1
   rw [hbd] at h3
   exact ⟨by simpa using h3, by simpa using h1⟩
-
-/-- a second `WriteMessage` is refused while anything is buffered; the cipher state (nonce) does
-    not move on a refusal. -/
-theorem write_refused_while_pending (s : Sender) (m : Msg) (h : s.hdr ≠ [] ∨ s.body ≠ []) :
-    writeMessage s m = .error .notFlushed ∨ writeMessage s m = .error .tooLong := by
-  unfold writeMessage
-  by_cases hl : m.len > maxPayload
-  · right; simp [hl]
-  · left; simp [hl, h]
 
 example : ∃ s1, writeMessage ⟨CipherState.init (.atom 1) (.atom 2), [], []⟩ ⟨3, 9⟩ = .ok s1 :=
   ⟨_, writeMessage_ok _ _ (by simp [maxPayload]) rfl rfl⟩
@@ -175,10 +163,12 @@ theorem read_ok_iff (c c' : CipherState) (w w' : List WByte) (m : Msg) :
   · exact readMessage_ok c c' w w' m
   · rintro ⟨rfl, rfl⟩; exact readMessage_encode c m w'
 
-/-- a record sealed at another position (earlier message: replay; later message: reordering) or
-    under another base key (the other direction: reflection; another session) is rejected. -/
+/-- a record sealed under a different key term or a different nonce (earlier message: replay;
+    later message: reordering; the other direction: reflection; another session) is rejected —
+    and ONLY the AEAD inputs matter: a record from a state with another salt or history but the
+    same key term and nonce is the same byte string and is accepted (`read_ok_iff`). -/
 theorem foreign_record_rejected (c d : CipherState) (m : Msg) (w : List WByte)
-    (hne : d.salt0 ≠ c.salt0 ∨ d.key0 ≠ c.key0 ∨ d.epoch ≠ c.epoch ∨ d.nonce ≠ c.nonce) :
+    (hne : d.key ≠ c.key ∨ d.nonce ≠ c.nonce) :
     ∀ m' c' w', readMessage c (encodeMsg d m ++ w) ≠ (.ok m', c', w') := by
   intro m' c' w' h
   obtain ⟨hw, _⟩ := readMessage_ok _ _ _ _ _ h
@@ -189,12 +179,22 @@ theorem foreign_record_rejected (c d : CipherState) (m : Msg) (w : List WByte)
   injection hw with hw _
   injection hw with hw _
   simp only [CipherState.seal, Packet.mk.injEq] at hw
-  obtain ⟨e1, e2, _, _, e5, e6⟩ := hw
-  rcases hne with h | h | h | h
-  · exact h e6
-  · exact h e5
+  obtain ⟨e1, _, _, e4⟩ := hw
+  rcases hne with h | h
+  · exact h e4
   · exact h e1
-  · exact h e2
+
+/-- the salt plays no role for acceptance: same key term, same nonce ⇒ the record is read. -/
+theorem same_key_nonce_accepted (c d : CipherState) (m : Msg) (w : List WByte)
+    (hk : d.key = c.key) (hn : d.nonce = c.nonce) (hn' : d.nonce + 1 ≠ keyRotationInterval) :
+    ∃ c', readMessage c (encodeMsg d m ++ w) = (.ok m, c', w) := by
+  have e : encodeMsg d m = encodeMsg c m := by
+    have ha : d.advance.key = c.advance.key ∧ d.advance.nonce = c.advance.nonce := by
+      simp only [CipherState.advance, hn', hn ▸ hn', if_false, hk, hn]
+      exact ⟨trivial, trivial⟩
+    simp only [encodeMsg, CipherState.seal, hk, hn, ha.1, ha.2]
+  rw [e]
+  exact ⟨_, readMessage_encode c m w⟩
 
 /-- a stream cut anywhere inside a record gives an I/O error, never data. -/
 theorem truncated_rejected (c : CipherState) (m : Msg) (k : Nat) (hk : k < (encodeMsg c m).length) :
@@ -216,8 +216,9 @@ theorem truncated_rejected (c : CipherState) (m : Msg) (k : Nat) (hk : k < (enco
     have hB := take_hdr c m' w'
     rw [List.take_take, Nat.min_eq_left (by omega), hA, hB] at hpre
     have := render_inj _ _ hpre
-    simp only [CipherState.seal, lenMsg, Packet.mk.injEq, Msg.mk.injEq] at this
-    have hmm : m.len = m'.len := this.2.2.1.2
+    have hmm : m.len = m'.len := by
+      have := congrArg (fun p : Packet => p.pt.val) this
+      simpa [seal_pt, lenMsg] using this
     rw [List.length_append, em] at hl2
     rw [em] at hk
     omega
@@ -252,17 +253,19 @@ theorem corrupted_rejected (c : CipherState) (m : Msg) (w : List WByte) (i x : N
     have hB := take_hdr c m' w'
     rw [hA, hB] at hpre
     have := render_inj _ _ hpre
-    simp only [CipherState.seal, lenMsg, Packet.mk.injEq, Msg.mk.injEq] at this
-    have hmm : m.len = m'.len := this.2.2.1.2
+    have hmm : m.len = m'.len := by
+      have := congrArg (fun p : Packet => p.pt.val) this
+      simpa [seal_pt, lenMsg] using this
     rw [em] at hin hi
     omega
 
 /-- Unforgeability of the ideal AEAD, as a property of a byte stream `w`: every packet byte on
     the wire that is sealed under the sending side's base key stems from a packet the sender
     really sealed while sending `ms` (the adversary may cut, splice, repeat, reorder and mix in
-    arbitrary foreign bytes, but cannot seal under the session key). -/
+    arbitrary foreign bytes, but cannot seal under any key of this direction's ratchet chain,
+    identified by the key TERM, whatever state it was computed from). -/
 def Authentic (c : CipherState) (ms : List Msg) (w : List WByte) : Prop :=
-  ∀ p off, WByte.pkt p off ∈ w → p.salt0 = c.salt0 → p.key0 = c.key0 → p ∈ sealLog c ms
+  ∀ p off, WByte.pkt p off ∈ w → (∃ e, p.key = (ratchet c.salt c.key e).2) → p ∈ sealLog c ms
 
 theorem delivered_prefix_aux (c0 : CipherState) (hc : c0.WF) (ms0 : List Msg) :
     ∀ (fuel j : Nat) (w : List WByte), Authentic c0 ms0 w →
@@ -281,21 +284,17 @@ theorem delivered_prefix_aux (c0 : CipherState) (hc : c0.WF) (ms0 : List Msg) :
         rw [hw]; simp only [encodeMsg, List.mem_append]
         exact Or.inl (Or.inr (head_mem_render _))
       have hin := ha _ _ hmem
-        (by show ((stateAt c0 (2 * j + 1)).seal Term.empty m).salt0 = _; exact stateAt_salt0 c0 _)
-        (by show ((stateAt c0 (2 * j + 1)).seal Term.empty m).key0 = _; exact stateAt_key0 c0 _)
+        ⟨_, (stateAt_closed c0 hc (2 * j + 1)).2.1⟩
       obtain ⟨i, mi, hi, hp⟩ := mem_sealLog ms0 c0 _ hin
-      have wfj := stateAt_wf c0 hc (2 * j + 1)
-      have pj := stateAt_pos c0 hc (2 * j + 1)
       have hij : i = j ∧ mi = m := by
         rcases hp with hp | hp
-        · have wfi := stateAt_wf c0 hc (2 * i)
-          have pi := stateAt_pos c0 hc (2 * i)
-          have := congrArg Packet.pos hp
-          change (stateAt c0 (2 * j + 1)).pos = (stateAt c0 (2 * i)).pos at this
+        · have hk := congrArg Packet.key hp
+          have hn := congrArg Packet.nonce hp
+          have := stateAt_index_inj c0 hc (2 * j + 1) (2 * i) hk hn
           omega
-        · have pi := stateAt_pos c0 hc (2 * i + 1)
-          have h1 := congrArg Packet.pos hp
-          change (stateAt c0 (2 * j + 1)).pos = (stateAt c0 (2 * i + 1)).pos at h1
+        · have hk := congrArg Packet.key hp
+          have hn := congrArg Packet.nonce hp
+          have := stateAt_index_inj c0 hc (2 * j + 1) (2 * i + 1) hk hn
           have h2 := congrArg Packet.pt hp
           simp only [seal_pt] at h2
           exact ⟨by omega, h2.symm⟩
@@ -307,8 +306,8 @@ theorem delivered_prefix_aux (c0 : CipherState) (hc : c0.WF) (ms0 : List Msg) :
         rw [hc']; rfl
       rw [hc2]
       apply ih (i + 1) w'
-      intro p off hp' h1 h2
-      exact ha p off (by rw [hw]; exact List.mem_append_right _ hp') h1 h2
+      intro p off hp' h1
+      exact ha p off (by rw [hw]; exact List.mem_append_right _ hp') h1
     · exact List.nil_prefix
 
 /-- `tamper_fails` (whole connection): whatever byte stream reaches the receiver — honest bytes
@@ -323,7 +322,7 @@ theorem delivered_prefix (c : CipherState) (hc : c.WF) (ms : List Msg) (w : List
 
 /-- non-vacuity: the honest stream followed by a replay of itself is authentic -/
 example (c : CipherState) (ms : List Msg) : Authentic c ms (encodeAll c ms ++ encodeAll c ms) := by
-  intro p off hp _ _
+  intro p off hp _
   have key : ∀ (ms : List Msg) (c : CipherState) (p : Packet) (off : Nat),
       WByte.pkt p off ∈ encodeAll c ms → p ∈ sealLog c ms := by
     intro ms
@@ -358,35 +357,55 @@ example :
 
 /-! ## 5. handshake -/
 
-theorem mkDh_comm (a b : Nat) : mkDh a b = mkDh b a := by
-  simp only [mkDh, Nat.min_comm, Nat.max_comm]
+/-- chaining keys and handshake keys of an honest exchange -/
+def hsCk1 (ie rs : Nat) : Term := .kdf1 Term.protoHash (mkDh ie rs)
+def hsK1 (ie rs : Nat) : Term := .kdf2 Term.protoHash (mkDh ie rs)
+def hsCk2 (ie rs re : Nat) : Term := .kdf1 (hsCk1 ie rs) (mkDh re ie)
+def hsK2 (ie rs re : Nat) : Term := .kdf2 (hsCk1 ie rs) (mkDh re ie)
+def hsCk3 (is ie rs re : Nat) : Term := .kdf1 (hsCk2 ie rs re) (mkDh re is)
+def hsK3 (is ie rs re : Nat) : Term := .kdf2 (hsCk2 ie rs re) (mkDh re is)
 
-/-- `handshake_iff_right_key`: for all static and ephemeral keys, the three acts delivered
-    unaltered complete **iff** the key the initiator dials is the responder's static key. -/
+/-- the complete result of an honest exchange with the right key: session keys of both sides
+    and the `(key, nonce)` of every `Encrypt` call made during the three acts. -/
+theorem handshake_result (is ie rs re : Nat) :
+    ∃ iF rF, runHandshakeStates is ie rs rs re = some
+        ((CipherState.init (hsCk3 is ie rs re) (.kdf1 (hsCk3 is ie rs re) Term.empty),
+          CipherState.init (hsCk3 is ie rs re) (.kdf2 (hsCk3 is ie rs re) Term.empty)),
+         (CipherState.init (hsCk3 is ie rs re) (.kdf2 (hsCk3 is ie rs re) Term.empty),
+          CipherState.init (hsCk3 is ie rs re) (.kdf1 (hsCk3 is ie rs re) Term.empty)), iF, rF) ∧
+      iF.uses = [(hsK3 is ie rs re, 0), (hsK2 ie rs re, 1), (hsK1 ie rs, 0)] ∧
+      rF.uses = [(hsK2 ie rs re, 0)] := by
+  simp [runHandshakeStates, genActOne, recvActOne, recvAct12, genActTwo, recvActTwo, genActThree,
+    recvActThree, HState.new, HState.mixHash, HState.mixKey, HState.encryptAndHash, HState.decryptAndHash,
+    hsOpen, handshakeVersion, mkDh_comm is re, HState.split, hsCk1, hsCk2, hsCk3, hsK1, hsK2, hsK3]
+  exact ⟨_, _, ⟨rfl, rfl⟩, rfl, rfl⟩
+
+/-- `handshake_iff_right_key` (this IS the clause "the handshake completes exactly when the
+    initiator targets the responder's real static key", for acts delivered unaltered; altered
+    acts are covered by `responder_auth` / `initiator_auth` below): for all static and ephemeral
+    keys, the three acts complete **iff** the key the initiator dials is the responder's. -/
 theorem handshake_iff_right_key (is ie target rs re : Nat) :
     (runHandshake is ie target rs re).isSome ↔ target = rs := by
   by_cases h : target = rs
   · subst h
-    simp [runHandshake, genActOne, recvActOne, recvAct12, genActTwo, recvActTwo, genActThree, recvActThree,
-      HState.new, HState.mixHash, HState.mixKey, HState.encryptAndHash, HState.decryptAndHash, hsOpen,
-      handshakeVersion, mkDh_comm is re]
-  · simp [runHandshake, genActOne, recvActOne, recvAct12, HState.new, HState.mixHash, HState.mixKey,
-      HState.encryptAndHash, HState.decryptAndHash, hsOpen, handshakeVersion, h]
+    obtain ⟨iF, rF, hr, _⟩ := handshake_result is ie target re
+    simp [runHandshake, hr]
+  · simp [runHandshake, runHandshakeStates, genActOne, recvActOne, recvAct12, HState.new, HState.mixHash,
+      HState.mixKey, HState.encryptAndHash, HState.decryptAndHash, hsOpen, handshakeVersion, h]
 
 /-- after a completed handshake each side's send state is the other side's receive state
-    (key, salt, epoch 0, nonce 0), and the two directions use different keys. -/
+    (key, salt, nonce 0), the two directions share the salt and use different keys of equal size. -/
 theorem handshake_keys_mirror (is ie target rs re : Nat) (ik rk : CipherState × CipherState)
     (h : runHandshake is ie target rs re = some (ik, rk)) :
-    ik.1 = rk.2 ∧ ik.2 = rk.1 ∧ ik.1.key0 ≠ ik.2.key0 ∧ ik.1.salt0 = ik.2.salt0 ∧
-    ik.1.nonce = 0 ∧ ik.1.epoch = 0 ∧ ik.2.nonce = 0 ∧ ik.2.epoch = 0 ∧
-    ik.1.key0.size = ik.2.key0.size := by
+    ik.1 = rk.2 ∧ ik.2 = rk.1 ∧ ik.1.key ≠ ik.2.key ∧ ik.1.salt = ik.2.salt ∧
+    ik.1.nonce = 0 ∧ ik.2.nonce = 0 ∧ ik.1.key.size = ik.2.key.size ∧
+    ik.1.key = .kdf1 ik.1.salt Term.empty ∧ ik.2.key = .kdf2 ik.1.salt Term.empty := by
   have ht : target = rs := (handshake_iff_right_key is ie target rs re).mp (by rw [h]; rfl)
   subst ht
-  simp [runHandshake, genActOne, recvActOne, recvAct12, genActTwo, recvActTwo, genActThree, recvActThree,
-    HState.new, HState.mixHash, HState.mixKey, HState.encryptAndHash, HState.decryptAndHash, hsOpen,
-    handshakeVersion, mkDh_comm is re, HState.split, CipherState.init] at h
+  obtain ⟨iF, rF, hr, _⟩ := handshake_result is ie target re
+  simp only [runHandshake, hr, Option.map_some, Option.some.injEq, Prod.mk.injEq] at h
   obtain ⟨rfl, rfl⟩ := h
-  simp [Term.size]
+  simp [CipherState.init, Term.size]
 
 /-- `RecvActOne` accepts exactly one tag for a given ephemeral key: the one an initiator holding
     that ephemeral key computes when it dials THIS responder's static key from the same
@@ -500,14 +519,10 @@ theorem recvActThree_ok_iff (s : HState) (a : Act3) :
         exact absurd h2 (hc h0 h1)
     | _ => simp [HState.decryptAndHash, hsOpen]
 
-/-- whatever happens to a ciphertext handed to `Decrypt`, the nonce moves on (also on a MAC
-    failure): a failed read leaves the receiver one step ahead of the sender. -/
-theorem decrypt_always_advances (c : CipherState) (ad : Term) (bs : List WByte) :
-    (decrypt c ad bs).2 = c.advance := rfl
-
 /-- end to end: after a completed handshake, every message list sent by either side with any
-    flush pattern is delivered to the other side identical and in order, and what a side sends
-    is rejected when reflected back to it. -/
+    flush pattern is delivered to the other side identical and in order, and whatever a side
+    sends — at any point of its stream, under any rotated key — is rejected when reflected back
+    to it at any point of its receive stream. -/
 theorem end_to_end (is ie target rs re : Nat) (ik rk : CipherState × CipherState)
     (h : runHandshake is ie target rs re = some (ik, rk))
     (steps : List SendStep) (hl : ∀ st ∈ steps, st.msg.len ≤ maxPayload) :
@@ -515,15 +530,262 @@ theorem end_to_end (is ie target rs re : Nat) (ik rk : CipherState × CipherStat
         recvAll steps.length rk.2 wire = steps.map (·.msg)) ∧
     (∃ wire s', sendAll ⟨rk.1, [], []⟩ steps = some (wire, s') ∧
         recvAll steps.length ik.2 wire = steps.map (·.msg)) ∧
-    (∀ m w m' c' w', readMessage ik.2 (encodeMsg ik.1 m ++ w) ≠ (.ok m', c', w')) := by
-  obtain ⟨h1, h2, h3, _⟩ := handshake_keys_mirror is ie target rs re ik rk h
+    (∀ i j m w m' c' w',
+        readMessage (stateAt ik.2 j) (encodeMsg (stateAt ik.1 i) m ++ w) ≠ (.ok m', c', w')) := by
+  obtain ⟨h1, h2, _, h4, n1, n2, _, k1, k2⟩ := handshake_keys_mirror is ie target rs re ik rk h
   refine ⟨?_, ?_, ?_⟩
   · obtain ⟨wire, s', a, b, _⟩ := stream_in_order ⟨ik.1, [], []⟩ rfl rfl steps hl
     exact ⟨wire, s', a, by rw [← h1]; exact b⟩
   · obtain ⟨wire, s', a, b, _⟩ := stream_in_order ⟨rk.1, [], []⟩ rfl rfl steps hl
     exact ⟨wire, s', a, by rw [h2]; exact b⟩
-  · intro m w
-    exact foreign_record_rejected ik.2 ik.1 m w (Or.inr (Or.inl h3))
+  · intro i j m w
+    apply foreign_record_rejected
+    left
+    have w1 : ik.1.WF := by simp [CipherState.WF, n1, keyRotationInterval]
+    have w2 : ik.2.WF := by simp [CipherState.WF, n2, keyRotationInterval]
+    rw [(stateAt_closed ik.1 w1 i).2.1, (stateAt_closed ik.2 w2 j).2.1, ← h4, k1, k2]
+    exact ratchet_directions_distinct _ _ _ (by simp) (by simp [Term.size]) _ _
+
+/-- (key, nonce) uniqueness including the handshake: in an honest exchange the four `Encrypt`
+    calls of the three acts (initiator: act one, the two of act three; responder: act two) use
+    pairwise different (key, nonce) pairs, and none of the handshake keys is ever a transport
+    key of either direction, at any ratchet step. -/
+theorem handshake_nonce_unique (is ie rs re : Nat) (ms ms' : List Msg) :
+    ∃ ik rk iF rF, runHandshakeStates is ie rs rs re = some (ik, rk, iF, rF) ∧
+      (iF.uses ++ rF.uses).Pairwise (· ≠ ·) ∧
+      ∀ u ∈ iF.uses ++ rF.uses, ∀ p, (p ∈ sealLog ik.1 ms ∨ p ∈ sealLog ik.2 ms') → u.1 ≠ p.key := by
+  obtain ⟨iF, rF, hr, hi, hrr⟩ := handshake_result is ie rs re
+  refine ⟨_, _, iF, rF, hr, ?_, ?_⟩
+  · rw [hi, hrr]
+    simp [hsK1, hsK2, hsK3, hsCk1, hsCk2, Term.protoHash]
+  · intro u hu p hp
+    have hsz : u.1.size ≤ 7 := by
+      rw [hi, hrr] at hu
+      simp only [List.cons_append, List.nil_append, List.mem_cons, List.mem_nil_iff, or_false] at hu
+      rcases hu with rfl | rfl | rfl | rfl <;>
+        simp [hsK1, hsK2, hsK3, hsCk1, hsCk2, Term.size, mkDh, Term.protoHash]
+    have hp9 : 9 ≤ p.key.size := by
+      rcases hp with hp | hp
+      · obtain ⟨_, ⟨k, a, _⟩, _⟩ := mem_sealLog_wf ms _ (init_wf _ _) p hp
+        rw [a, (stateAt_closed _ (init_wf _ _) k).2.1]
+        refine Nat.le_trans ?_ (ratchet_size_ge _ _ _)
+        simp [CipherState.init, hsCk3, hsCk2, hsCk1, Term.size, mkDh, Term.protoHash, Term.empty]
+      · obtain ⟨_, ⟨k, a, _⟩, _⟩ := mem_sealLog_wf ms' _ (init_wf _ _) p hp
+        rw [a, (stateAt_closed _ (init_wf _ _) k).2.1]
+        refine Nat.le_trans ?_ (ratchet_size_ge _ _ _)
+        simp [CipherState.init, hsCk3, hsCk2, hsCk1, Term.size, mkDh, Term.protoHash, Term.empty]
+    intro he
+    rw [he] at hsz
+    omega
+
+/-- a 16-byte tag field can only be the sealing of the empty string -/
+def TagOk (f : CtField) : Prop := ∀ k n ad pt, f = .ct (.aead k n ad pt) → pt = Term.empty
+
+/-- `initiator_auth`: if the initiator (any static/ephemeral key, dialling `target`) accepts ANY act
+    two — whatever was done to the bytes in flight — then that act two is exactly the one the
+    responder holding the static key `target` generates, with some ephemeral key `z`, after
+    having accepted this initiator's act one. -/
+theorem initiator_auth (is ie target : Nat) (a1 a2 : Act12) (i1 i2 : HState)
+    (h1 : genActOne (HState.new true is (some target)) ie = (.ok a1, i1))
+    (h2 : recvActTwo i1 a2 = (.ok (), i2)) (t2 : TagOk a2.tag) :
+    ∃ z, (recvActOne (HState.new false target none) a1).1 = .ok () ∧
+      (genActTwo (recvActOne (HState.new false target none) a1).2 z).1 = .ok a2 := by
+  have hok : (recvActTwo i1 a2).1 = .ok () := by rw [h2]
+  obtain ⟨hv, x, e, pt, he, hle, ht⟩ := (recvActTwo_ok_iff i1 a2).mp hok
+  have hpt := t2 _ _ _ _ ht
+  subst hpt
+  obtain ⟨ver, e2, tag⟩ := a2
+  simp only at hv he ht
+  subst hv he ht
+  simp [genActOne, HState.new, HState.mixHash, HState.mixKey, HState.encryptAndHash] at h1
+  obtain ⟨rfl, rfl⟩ := h1
+  simp only [Option.some.injEq] at hle
+  subst hle
+  refine ⟨x, ?_, ?_⟩
+  · simp [recvActOne, recvAct12, HState.new, HState.mixHash, HState.mixKey, HState.decryptAndHash, hsOpen,
+      handshakeVersion]
+  · simp [recvActOne, recvAct12, HState.new, genActTwo, HState.mixHash, HState.mixKey, HState.encryptAndHash,
+      HState.decryptAndHash, hsOpen, handshakeVersion, mkDh_comm]
+
+/-- `responder_auth` (handshake authentication, the monitor's `handshake-auth` clause as a
+    theorem): if a responder with static key `rs` accepts ANY act one, answers with act two, and
+    then accepts ANY act three, then there are an ephemeral key `x` and a static key `y` such that
+    an initiator with these keys that DIALLED `rs` generates exactly this act one, accepts exactly
+    this act two and generates exactly this act three; `y` is the remote static key the
+    responder reports, and the session keys mirror. (Symbolic: the accepted fields are uniquely
+    determined terms; that only the holder of the private keys can build them is the ideal-crypto
+    assumption.) -/
+theorem responder_auth (rs re : Nat) (a1 a2 : Act12) (a3 : Act3) (r1 r2 r3 : HState)
+    (keys : CipherState × CipherState)
+    (h1 : recvActOne (HState.new false rs none) a1 = (.ok (), r1))
+    (h2 : genActTwo r1 re = (.ok a2, r2))
+    (h3 : recvActThree r2 a3 = (.ok keys, r3))
+    (t1 : TagOk a1.tag) (t3 : TagOk a3.tag) :
+    ∃ x y,
+      (genActOne (HState.new true y (some rs)) x).1 = .ok a1 ∧
+      (recvActTwo (genActOne (HState.new true y (some rs)) x).2 a2).1 = .ok () ∧
+      (genActThree (recvActTwo (genActOne (HState.new true y (some rs)) x).2 a2).2).1 =
+        .ok (a3, keys.2, keys.1) ∧
+      r3.rs = some y := by
+  have hok1 : (recvActOne (HState.new false rs none) a1).1 = .ok () := by rw [h1]
+  obtain ⟨hv, x, pt, he, ht⟩ := (recvActOne_ok_iff _ a1).mp hok1
+  have hpt := t1 _ _ _ _ ht
+  subst hpt
+  obtain ⟨ver, e1, tag⟩ := a1
+  simp only at hv he ht
+  subst hv he ht
+  simp [recvActOne, recvAct12, HState.new, HState.mixHash, HState.mixKey, HState.decryptAndHash, hsOpen,
+    handshakeVersion] at h1
+  subst h1
+  simp [genActTwo, HState.mixHash, HState.mixKey, HState.encryptAndHash] at h2
+  obtain ⟨rfl, rfl⟩ := h2
+  have hok3 : ∃ k, (recvActThree _ a3).1 = .ok k := ⟨keys, by rw [h3]⟩
+  obtain ⟨hv3, y, e, pt3, hle, hc, htag⟩ := (recvActThree_ok_iff _ a3).mp hok3
+  have hpt3 := t3 _ _ _ _ htag
+  subst hpt3
+  obtain ⟨ver3, c3, tag3⟩ := a3
+  simp only at hv3 hc htag
+  subst hv3 hc htag
+  simp only [Option.some.injEq] at hle
+  subst hle
+  simp [recvActThree, HState.mixKey, HState.decryptAndHash, hsOpen, handshakeVersion, HState.split,
+    CipherState.init] at h3
+  obtain ⟨rfl, rfl⟩ := h3
+  refine ⟨x, y, ?_, ?_, ?_, ?_⟩
+  · simp [genActOne, HState.new, HState.mixHash, HState.mixKey, HState.encryptAndHash, handshakeVersion]
+  · simp [genActOne, recvActTwo, recvAct12, HState.new, HState.mixHash, HState.mixKey, HState.encryptAndHash,
+      HState.decryptAndHash, hsOpen, handshakeVersion, mkDh_comm]
+  · simp [genActOne, recvActTwo, recvAct12, genActThree, HState.new, HState.mixHash, HState.mixKey,
+      HState.encryptAndHash, HState.decryptAndHash, hsOpen, handshakeVersion, mkDh_comm, HState.split,
+      CipherState.init]
+  · simp
+/-! ## 6. conn.go / listener.go -/
+
+/-- `Dial` against `Listener.doHandshake` with nothing altered in flight: both succeed iff the
+    dialled key is the listener's; then the listener reports the dialler's static key and the
+    session keys are those of `runHandshake`. -/
+theorem connHandshake_honest_iff (is ie target rs re : Nat) :
+    ((connHandshake is ie target rs re .none).dial = .ok ∧
+     (connHandshake is ie target rs re .none).accept = .ok) ↔ target = rs := by
+  by_cases h : target = rs
+  · subst h
+    simp [connHandshake, genActOne, recvActOne, recvAct12, genActTwo, recvActTwo, genActThree, recvActThree,
+      HState.new, HState.mixHash, HState.mixKey, HState.encryptAndHash, HState.decryptAndHash, hsOpen,
+      handshakeVersion, mkDh_comm is re]
+  · simp [connHandshake, genActOne, recvActOne, recvAct12, HState.new, HState.mixHash, HState.mixKey,
+      HState.encryptAndHash, HState.decryptAndHash, hsOpen, handshakeVersion, h]
+
+theorem connHandshake_honest_result (is ie rs re : Nat) :
+    (connHandshake is ie rs rs re .none).rpub = some is ∧
+    (connHandshake is ie rs rs re .none).keys = runHandshake is ie rs rs re := by
+  obtain ⟨iF, rF, hr, _⟩ := handshake_result is ie rs re
+  simp only [runHandshake, hr]
+  simp [connHandshake, genActOne, recvActOne, recvAct12, genActTwo, recvActTwo, genActThree, recvActThree,
+    HState.new, HState.mixHash, HState.mixKey, HState.encryptAndHash, HState.decryptAndHash, hsOpen,
+    handshakeVersion, mkDh_comm is re, HState.split, hsCk1, hsCk2, hsCk3]
+
+/-- record lengths of `Conn.Write`: they add up to the input length, none exceeds 65535, and
+    there is always at least one record (an empty write sends an empty record). -/
+theorem chunkLens_spec (n : Nat) :
+    (chunkLens n).sum = n ∧ (∀ l ∈ chunkLens n, l ≤ maxPayload) ∧ chunkLens n ≠ [] := by
+  have gen : ∀ (f n : Nat), n ≤ f * maxPayload + maxPayload →
+      (chunkLensF f n).sum = n ∧ (∀ l ∈ chunkLensF f n, l ≤ maxPayload) ∧ chunkLensF f n ≠ [] := by
+    intro f
+    induction f with
+    | zero => intro n h; simp only [Nat.zero_mul, Nat.zero_add] at h; simp [chunkLensF, h]
+    | succ f ih =>
+      intro n h
+      simp only [chunkLensF]
+      split
+      · rename_i h1; simp [h1]
+      · rename_i h1
+        have h2 : n - maxPayload ≤ f * maxPayload + maxPayload := by
+          rw [Nat.succ_mul] at h; omega
+        obtain ⟨a, b, _⟩ := ih _ h2
+        refine ⟨?_, ?_, by simp⟩
+        · simp only [List.sum_cons, a]; omega
+        · intro l hl
+          simp only [List.mem_cons] at hl
+          rcases hl with rfl | hl
+          · exact Nat.le_refl _
+          · exact b l hl
+  exact gen n n (by
+    have : n ≤ n * maxPayload := Nat.le_mul_of_pos_right n (by simp [maxPayload])
+    omega)
+
+/-- `Conn.Write` accounting, for any chunk list and any writer budget: the returned
+    `bytesWritten` plus the payload bytes still buffered equals the total length of the records
+    handed to `WriteMessage`, and the bytes that reached the wire followed by the buffered bytes
+    are exactly the encoding of those records — i.e. `bytesWritten` is the number of plaintext
+    bytes on the wire. -/
+theorem connWrite_accounting (chunks : List Msg) : ∀ (s : Sender) (budget : Option Nat),
+    s.hdr = [] → s.body = [] →
+    (connWrite s budget chunks).n + ((connWrite s budget chunks).st.body.length - macSize) =
+      ((connWrite s budget chunks).written.map (·.len)).sum ∧
+    (connWrite s budget chunks).out ++
+        ((connWrite s budget chunks).st.hdr ++ (connWrite s budget chunks).st.body) =
+      encodeAll s.cs (connWrite s budget chunks).written ∧
+    ((connWrite s budget chunks).err = .none →
+      (connWrite s budget chunks).written = chunks ∧ (connWrite s budget chunks).st.hdr = [] ∧
+      (connWrite s budget chunks).st.body = []) := by
+  induction chunks with
+  | nil => intro s b hh hb; simp [connWrite, encodeAll, hh, hb]
+  | cons c cs ih =>
+    intro s b hh hb
+    simp only [connWrite]
+    cases hw : writeMessage s c with
+    | error e => simp [encodeAll, hh, hb]
+    | ok s1 =>
+      obtain ⟨_, _, _, hs1⟩ := writeMessage_inv s s1 c hw
+      have hbody : s1.body.length - macSize = c.len := by rw [hs1]; simp [render_length, seal_pt]
+      have henc : s1.hdr ++ s1.body = encodeMsg s.cs c := by rw [hs1]; rfl
+      have hcs : s1.cs = s.cs.advance.advance := by rw [hs1]
+      obtain ⟨g1, g2⟩ := flush_conserve s1 b false
+      have g3 := flush_count s1 b false
+      simp only
+      by_cases he : (flush s1 b false).err = true
+      · simp only [he, if_true]
+        refine ⟨?_, ?_, ?_⟩
+        · simp only [List.map_cons, List.map_nil, List.sum_cons, List.sum_nil]; omega
+        · simp only [encodeAll, List.append_nil]; rw [g1, henc]
+        · intro h; cases h
+      · have he' : (flush s1 b false).err = false := by simpa using he
+        obtain ⟨c1, c2⟩ := flush_noerr_clean s1 b false he'
+        obtain ⟨i1, i2, i3⟩ := ih (flush s1 b false).st (flush s1 b false).budget c1 c2
+        simp only [he', Bool.false_eq_true, if_false]
+        rw [c1, c2] at g1
+        rw [c2] at g3
+        refine ⟨?_, ?_, ?_⟩
+        · simp only [List.map_cons, List.sum_cons]
+          simp only [List.length_nil] at g3
+          omega
+        · simp only [encodeAll, List.append_assoc]
+          rw [i2, g2, hcs]
+          simp only [List.append_nil] at g1
+          rw [g1, henc]
+        · intro h
+          obtain ⟨j1, j2, j3⟩ := i3 h
+          exact ⟨by rw [j1], j2, j3⟩
+
+/-- with an unlimited writer and admissible record sizes `Conn.Write` never fails: it returns the
+    total length and puts the encoding of all records on the wire. -/
+theorem connWrite_unlimited (chunks : List Msg) : ∀ (s : Sender), s.hdr = [] → s.body = [] →
+    (∀ c ∈ chunks, c.len ≤ maxPayload) →
+    (connWrite s none chunks).err = .none ∧ (connWrite s none chunks).budget = none := by
+  induction chunks with
+  | nil => intro s _ _ _; simp [connWrite]
+  | cons c cs ih =>
+    intro s hh hb hl
+    have hw := writeMessage_ok s c (hl c (by simp)) hh hb
+    simp only [connWrite, hw]
+    obtain ⟨f1, f2, f3⟩ := flush_none
+      { cs := s.cs.advance.advance, hdr := render (s.cs.seal Term.empty (lenMsg c.len)),
+        body := render (s.cs.advance.seal Term.empty c) } false
+    have fb := flush_none_budget
+      { cs := s.cs.advance.advance, hdr := render (s.cs.seal Term.empty (lenMsg c.len)),
+        body := render (s.cs.advance.seal Term.empty c) } false
+    simp only [f3, Bool.false_eq_true, if_false, fb]
+    exact ih _ f1 f2 (fun x hx => hl x (by simp [hx]))
 
 example : (runHandshake 1 2 3 3 4).isSome := (handshake_iff_right_key 1 2 3 3 4).mpr rfl
 example : ¬ (runHandshake 1 2 5 3 4).isSome := fun h => by
